@@ -128,6 +128,15 @@ CLAIMED["C11"] = ("Partial proof, of the seekable stream cipher (EEA / XORKeyStr
  "Trusted: genKeyStream/genKeyStreamRev32 (assumed contracts), newZUCState, subtle.XORBytes, alias.InexactOverlap; callers do not pass slices aliasing the object's internal buffer.",
  "DESIGN.md §0.2, §4 C11")
 
+CLAIMED["C04"] = ("Partial proof, of the generic (pure Go) CCM in cipher/ccm.go over an abstract 128-bit block cipher and an assumed CTR stream: the counter block A_0 (flags L-1, nonce, zero counter) and the CTR start value 1; "
+ "B_0 = flags || nonce || l(m) with flags = 64*[a present] + 8*((M-2)/2) + (L-1) for every nonce size 7..13 and tag size 4..16 (49 configurations), the associated-data length encoding (2 bytes below 2^16-2^8, ff fe + 4 bytes below 2^32, "
+ "ff ff + 8 bytes) followed by the first bytes of a zero padded, then the rest of a, then the plaintext; Seal returns dst || (P xor keystream) || T, writes only the appended region and authenticates the plaintext as given also when sealing in place "
+ "(found and fixed D28: the tag was computed after the plaintext had been overwritten); Open compares the whole received tag in constant time, returns plaintext only after a match and otherwise returns nil with the output region zeroed; "
+ "the constructor admits exactly even tag sizes 4..16 and nonce sizes 7..13. Not decided: GCM (table-driven GHASH and the fused SM4-GCM assembly need carry-less multiplication reasoning), the SM4-specific CCM path, "
+ "the CBC-MAC chaining inside cmac (a frame-only assumption here; the same construction is proved for cbcmac under C19), equality of the final tag with RFC 3610 test vectors.",
+ "Trusted: crypto/cipher.NewCTR and Stream.XORKeyStream (abstract stream), cipher.Block interface, (*ccm).cmac (frame), MaxLength, subtle.XORBytes/ConstantTimeCompare, alias.InexactOverlap; Open's dst does not overlap the received tag.",
+ "DESIGN.md §0.2, §4 C04")
+
 NOT_APPLICABLE = {
  "C02": "Not reached by the contract technique in this build: the SM4 round function (S-box tables, 32-bit rotations, XOR network) needs the bit-vector mode of the verifier, which exists only as a skeleton; the AES-NI/AVX assembly tiers are outside any Go-level contract. The Go wrappers around the SM4 assembly that cipher modes use are covered under C03. No other technique was substituted.",
  "C04": "GCM/CCM: table-driven GHASH and the fused SM4-GCM assembly need bit-vector reasoning over carry-less multiplication that the arith-mode VC generator cannot express; CCM's Go glue was planned but not reached in this build.",
